@@ -223,7 +223,7 @@ def histories(ctx):
     rng = ctx.rng
     quick = ctx.tier == "quick"
     hs = []
-    n = 14 if quick else 500
+    n = 45 if quick else 500
     for i in range(n):
         song = gen_song(rng, loops=None if i % 3 else "none", big=(i % 9 == 8 and not quick))
         if song.loops == "none":
